@@ -340,6 +340,19 @@ def Display.recordCanary (d : Display) (passed : Bool) : Display :=
 /-- `clear()`: all observations and canary results are dropped -/
 def Display.clear (d : Display) : Display := ⟨d.windowSize, d.minObs, [], []⟩
 
+/-- the public attributes of the display assigned or mutated by hand, past `record` / `record_canary_result` / `clear`:
+    `display.canary_results` appended to, cleared, re-assigned, cut down to its newest entries … -/
+def Display.setCanaries (d : Display) (l : List Bool) : Display := ⟨d.windowSize, d.minObs, d.obs, l⟩
+
+/-- `display.observations` popped / cut / re-assigned by hand -/
+def Display.setObs (d : Display) (l : List Ob) : Display := ⟨d.windowSize, d.minObs, l, d.canaries⟩
+
+/-- `display.window_size = k` after construction (read by the next `record`, which evicts at most one observation) -/
+def Display.setWindow (d : Display) (k : Int) : Display := ⟨k, d.minObs, d.obs, d.canaries⟩
+
+/-- `display.min_observations = k` after construction (read by every `generate_peptide`) -/
+def Display.setMinObs (d : Display) (k : Int) : Display := ⟨d.windowSize, k, d.obs, d.canaries⟩
+
 /-- a set of small ids as a bit mask -/
 def bitsOf (l : List Nat) : Nat := l.foldl (fun acc i => acc ||| (1 <<< i)) 0
 
